@@ -546,7 +546,9 @@ fn search(pid: &str, seed: u64, budget: usize) -> Option<(String, String)> {
 fn exhaustive(name: &str) -> i32 {
     match name {
         // complete finite domain 0..=0x10FFFF plus boundary values above, both classes, both entry points
-        "derived" => { let mut n = 0u64; for cp in (0..=0x10ffffu32).chain([0x110000, 0x110001, 0xffffff, 0x7fffffff, 0x80000000, u32::MAX - 1, u32::MAX]) { n += 1;
+        "derived" => { let mut n = 0u64;
+            // discharges the Verus-side axiom `axiom_space_freeform` on the real classification
+            if FreeformClass::default().get_value_from_codepoint(0x20) != V::SpecClassPval { println!("{{\"found\":true,\"input\":32,\"detail\":\"U+0020 is not FREE_PVAL\"}}"); return 1; } for cp in (0..=0x10ffffu32).chain([0x110000, 0x110001, 0xffffff, 0x7fffffff, 0x80000000, u32::MAX - 1, u32::MAX]) { n += 1;
             if let Some(d) = c14_cp(cp) { println!("{{\"found\":true,\"input\":{},\"detail\":{}}}", cp, json_str(&d)); return 1; } }
             println!("{{\"found\":false,\"evaluated\":{}}}", n); 0 }
         // C08 per-code-point lemmas for usernames: lowercase of an IdentifierClass-valid character stays non-forbidden
